@@ -49,12 +49,22 @@ type workerOut struct {
 func newWorkerOut() *workerOut { return &workerOut{bufio.NewWriter(os.Stdout)} }
 
 func (o *workerOut) finding(f wFinding) {
+	if r := replayReq; r != nil {
+		fmt.Printf("  FAIL %s: %s\n", f.Key, f.Detail)
+		if f.Key == r.Key {
+			r.Hit = true
+		}
+		return
+	}
 	b, _ := json.Marshal(f)
 	fmt.Fprintf(o.w, "F\t%s\n", b)
 	o.w.Flush()
 }
 
 func (o *workerOut) stats(s wStats) {
+	if replayReq != nil {
+		return
+	}
 	b, _ := json.Marshal(s)
 	fmt.Fprintf(o.w, "S\t%s\n", b)
 	o.w.Flush()
